@@ -319,6 +319,61 @@ DESC6 = {
 }
 
 
+DESC7 = {
+ 'C01_A': ('multi_record_log.rs open_with_prefs DeleteQueue arm', 'replay applies a DeleteQueue entry only if the rebuilt queue stands at the recorded position (computed from last_record)', 'a queue that is empty at a position > 0 when deleted, clean restart'),
+ 'C01_B': ('mem/queue.rs new field MemQueue::next_position', 'next_position() answers from a cached field that with_next_position (..Default::default()) leaves at 0', 'a queue whose history was reclaimed: only the RecordPosition entry rebuilds it, restart'),
+ 'C01_C': ('frame/reader.rs resume_cursor + into_writer', 'the writer resumes on the block boundary when `<= HEADER_LEN` bytes remain (the protocol pads only for `<`)', 'log closed exactly 7 bytes before a block end, reopen, append, reopen'),
+ 'C02_A': ('frame/reader.rs new field torn_tail', 'into_writer resumes at the offset of a trailing frame that failed its checksum; the field is never reset when the reader moves to the next block', 'a crash part-way through a block-filling first frame, recovery, appends, restart'),
+ 'C02_B': ('recordlog/reader.rs go_next', 'a First/Full frame while an entry is open returns Corruption: the consumed frame (start of the next valid entry) is lost', 'an orphan First frame at the tail (crash), one append after recovery, restart'),
+ 'C02_C': ('multi_record_log.rs open_with_prefs needs_repositioning', 'after a skipped corruption, an AppendRecords ahead of the queue head triggers ack_position on a known queue', 'a torn frame, an append at an explicit future position, restart'),
+ 'C03_A': ('multi_record_log.rs gc_and_persist helper', 'delete_queue loses its unconditional persist(FlushAndFsync): persists only on policy', 'lazy policy, delete_queue without GC, crash'),
+ 'C03_B': ('persist_policy.rs PersistState::gc_barrier', 'the fsync before unlinking is derived from the policy: DoNothing gives no barrier', 'DoNothing, truncate releasing the oldest file while newer records are buffered, crash'),
+ 'C03_C': ('recordlog/reader.rs go_next', 'First/Full while an entry is open -> Corruption (same mechanism as r7_C02_B)', 'crash inside a multi-frame entry, append, restart'),
+ 'C04_A': ('mem/queue.rs position_after_eviction', 'evict-all path: start_position = max(next_position(), truncate_up_to_pos)', 'truncate at or beyond the next position, automatic append'),
+ 'C04_B': ('multi_record_log.rs truncate', 'GC pass and policy flush moved before the in-memory truncation: the position pass snapshots the pre-truncation state', '>= 2 files, a truncation freeing the first, truncate beyond next position of an empty queue, restart'),
+ 'C04_C': ('rolling/directory.rs RollingWriter::write', 'a re-used next file is sized with set_len(FRAME_NUM_BYTES)', 'crash between creating and sizing a file, recovery, > 32 KiB of appends, restart'),
+ 'C06_A': ('rolling/directory.rs Directory::gc', 'unlink first, pop from the tracker afterwards', 'an unlink failing with NotFound: every later GC pass retries the vanished file and fails'),
+ 'C06_B': ('multi_record_log.rs open_with_prefs', 'the replay file clone hoisted out of the loop: it lives across the open-time GC', 'DoNothing, file N exactly full, roll-over buffered, crash, all queues empty by the end of N'),
+ 'C06_C': ('mem/queue.rs new field MemQueue::first_file', 'cached first file handle refreshed under `<` instead of `<=`', 'records in two files, truncate exactly at the last record of the oldest file'),
+ 'C06_D': ('rolling/directory.rs Directory::open_next_file', 'roll-over extracted into a helper that loses the set_len of an already listed next file (reverts fix 8a84cd9)', 'a 0-byte leftover next file from a crash'),
+ 'C07_A': ('frame/reader.rs resume_cursor', 'same mechanism as r7_C01_C (`<= HEADER_LEN`)', 'reopen with exactly 7 bytes left in the block, append, reopen'),
+ 'C07_B': ('rolling/directory.rs Directory::open_next_file', 'an existing next file is sized to one block (FRAME_NUM_BYTES)', 'leftover empty next file, appends ending past its first block unaligned, reopen'),
+ 'C07_C': ('recordlog/reader.rs go_next', 'First/Full while an entry is open -> Corruption', 'DoNothing, crash while a many-block entry is partly on disk, restart, append, restart'),
+ 'C08_A': ('recordlog/writer.rs new field mid_record', 'the first-frame flag becomes a field updated after each successful write_frame: an I/O error on a later frame leaves it set', 'I/O error on the 2nd+ frame of an entry, writer used again, sizes such that the glued buffer parses'),
+ 'C08_B': ('mem/rolling_buffer.rs get_range', 'wrap-around case through iter().skip(start).take(end) (should be end - start)', 'the ring wraps: fill, truncate a small head, append again, read'),
+ 'C08_C': ('recordlog/reader.rs go_next', 'start-of-entry test becomes `!within_record && is_first_frame`: a First/Full frame after a torn entry no longer clears the buffer', 'a torn multi-frame entry at the tail, restart, append, reopen'),
+ 'C09_A': ('frame/reader.rs is_at_frame_boundary', 'after a CRC failure the next 7 bytes are peeked and the block quarantined if they do not decode; unguarded slice near the block end', 'a damaged frame ending 1..6 bytes before the block end (panic), or followed by garbage'),
+ 'C09_B': ('recordlog/reader.rs skip_to_record_boundary', 'on Corruption inside an entry, frames are consumed up to the next Full/Last: a damaged LAST frame swallows the next entry', 'damage in the last frame of a multi-frame entry'),
+ 'C09_C': ('mem/queues.rs ack_position', 'reset condition simplified to `!queue.is_empty()`', 'a damaged DeleteQueue / Truncate entry followed by a RecordPosition'),
+ 'C10_A': ('frame/reader.rs payload_fits_in_block', 'the frame-fits test is evaluated before `cursor += HEADER_LEN`: 7 bytes too generous', 'a header announcing a length in (remaining-7, remaining]'),
+ 'C10_B': ('rolling/directory.rs num_bytes_remaining_in_file', 'roll-over test written `len > FILE_NUM_BYTES - offset`', 'the file where replay ends is longer than a WAL file: subtraction underflows'),
+ 'C10_C': ('recordlog/reader.rs go_next NotAvailable arm', 'end of log inside an entry answers Corruption and stays inside the entry', 'a log ending inside a multi-frame entry: open spins'),
+ 'C11_A': ('rolling/directory.rs RollingReader::open', 'the first block is read with read_block and its bool ignored: a short first file is not an error', 'first WAL file shorter than a block'),
+ 'C11_B': ('recordlog/reader.rs go_next', 'Corruption and IoError arms merged into `Err(_) => Corruption`', 'an I/O failure in next_block during recovery: open retries forever'),
+ 'C11_C': ('frame/reader.rs advance_block', '`matches!(next_block(), Ok(true))`: an I/O error looks like the end of the log', 'a WAL file unreadable during recovery'),
+ 'C12_A': ('file_number.rs take_unused + directory.rs gc_unused + delete_queue', 'delete_queue sweeps unused files anywhere in the log: a middle file holding continuation frames goes', 'a batch bigger than one WAL file, delete_queue on another queue, restart'),
+ 'C12_B': ('recordlog/reader.rs new field fragment_buffer', 'the is-last test slipped out of the within_record guard', 'a >= 3-frame batch, a damaged Middle frame, restart'),
+ 'C12_C': ('rolling/directory.rs next_block is_blank', 'a next file whose first block is all zeros is skipped when a later file exists', 'a batch longer than a WAL file, the first block of the middle file zeroed, restart'),
+ 'C13_A': ('multi_record_log.rs append_records', 'empty-batch test replaced by `size_hint().1 == Some(0)` before serialising', 'an empty batch from a filter/flat_map iterator'),
+ 'C13_B': ('multi_record_log.rs write_records wrapper', 'persist_on_policy hoisted into the public wrapper: no-op returns flush too', 'lazy policy, a retry / empty batch'),
+ 'C13_C': ('multi_record_log.rs truncate', 'existence decided by the in-memory truncate, after the WAL write', 'truncate of a missing queue'),
+ 'C14_A': ('multi_record_log.rs truncate', 'GC runs only when the policy says persist now', 'OnDelay / DoNothing and a truncation that frees a file'),
+ 'C14_B': ('rolling/directory.rs switch_to_next_file + persist', 'FlushAndFsync on an exactly-full file rolls over eagerly', 'an fsync while the cursor sits exactly at the end of a file'),
+ 'C14_C': ('persist_policy.rs next_deadline', 'OnDelay re-armed on a fixed grid: divides by the interval', 'OnDelay with a zero interval: panic after the WAL write'),
+ 'C15_A': ('frame/writer.rs block_cursor', 'write_frame reports the in-block cursor delta modulo the block size', 'a frame exactly one block long'),
+ 'C15_B': ('recordlog/writer.rs num_frames', 'entry footprint computed up front with `x / n + 1` frames', 'a remainder that is an exact multiple of the max frame payload'),
+ 'C15_C': ('multi_record_log.rs truncate', 'MissingQueue decided after the Truncate entry was written', 'truncate of a missing queue: bytes written, nothing reported'),
+ 'C16_A': ('mem/queue.rs MemQueue::len', 'size() multiplies the per-record overhead by next_position - start_position', 'explicit positions with gaps'),
+ 'C16_B': ('mem/queues.rs ack_position', 'kept-as-is test becomes `last_position() == next_position - 1`: a non-empty queue ending there is kept', 'replay of a RecordPosition onto a non-empty queue'),
+ 'C16_C': ('mem/queue.rs truncate_head', 'early return when the first retained record starts at offset 0: metas not drained', 'evicted records with empty payloads'),
+ 'C17_A': ('rolling/directory.rs is_empty_leftover', 'zero-length files whose name merely starts with wal- are unlinked during the scan', 'an empty foreign file named wal-writer.lock'),
+ 'C17_B': ('file_number.rs FileNumber::parse_filename', 'digits taken with trim_start_matches("wal-"): strips the prefix repeatedly', 'a 24-byte foreign name wal-wal-0000000000000007'),
+ 'C17_C': ('rolling/directory.rs Directory::open tail', 'file 0 of a fresh tracker created only if !path.exists()', 'no regular WAL file plus a symlink / directory named like file 0'),
+ 'C18_A': ('mem/queues.rs resolve_append_position', 'the explicit-position pre-check loses its Past arm: Past is detected after the WAL write', 'an append at a stale explicit position, restart: open fails for every queue'),
+ 'C18_B': ('recordlog/reader.rs go_next', 'First/Full while an entry is open -> Corruption', 'a torn multi-frame append of X, recovery, append by Y, restart'),
+ 'C18_C': ('multi_record_log.rs run_gc_if_necessary', 'the single fsync hoisted above the position pass: position entries still buffered when files are unlinked', 'lazy policy, GC while Y is empty, crash'),
+}
+
 ROUND = os.environ.get('SEED_ROUND', '1')
 
 
@@ -334,6 +389,8 @@ def main():
         DESC = DESC5
     if ROUND == '6':
         DESC = DESC6
+    if ROUND == '7':
+        DESC = DESC7
     out_root = os.path.join(VERIF, 'seeded')
     os.makedirs(out_root, exist_ok=True)
     work = os.path.join(VERIF, '.work')
@@ -343,7 +400,7 @@ def main():
         pid, x = key.split('_')
         src = os.path.join(SRC, pid, x)
         vs = os.path.join(VS, '%s_%s.json' % (pid, x))
-        if ROUND in ('3', '4', '5', '6') and os.path.exists(os.path.join(VS, 'r%s_%s_%s.json' % (ROUND, pid, x))):
+        if ROUND in ('3', '4', '5', '6', '7') and os.path.exists(os.path.join(VS, 'r%s_%s_%s.json' % (ROUND, pid, x))):
             vs = os.path.join(VS, 'r%s_%s_%s.json' % (ROUND, pid, x))
         if not os.path.isdir(src) or not os.path.exists(vs):
             print('skip (not verified yet):', key)
